@@ -9,7 +9,7 @@ Statements (lists):
   ["scope", {"k": key, "shield": b, "deadline": d|None, "pre": b}, body]
   ["cancel", key] ["shield", key, b] ["deadline", key, d|None] ["cbcancel", key]
   ["group", {"k": key}, body]   with ["spawn", key, name] / ["start", key, name] inside or elsewhere
-  ["raise", n] ["catch", body] ["finally", body, cleanup]
+  ["raise", n] ["catch", body] ["catchall", body] ["finally", body, cleanup]
   ["ncancel", name] ["uncancel"] ["hcancel", name] ["hwait", name] ["started"]
   ["effdl"]  (query current_effective_deadline)
 
@@ -56,11 +56,30 @@ def exc1(e: BaseException) -> str:
 
 
 def evcode(e: BaseException | None) -> str:
+    """classification as AnyIO itself sees the exception (is_anyio_cancellation also looks at
+    CancelledErrors in the __context__ chain): used for what the program hands to __exit__ etc."""
     if e is None:
         return "-"
     if isinstance(e, BaseExceptionGroup):
         return "g:" + ",".join(exc1(x) for x in leaves(e))
     return exc1(e)
+
+
+def own1(e: BaseException) -> str:
+    if isinstance(e, asyncio.CancelledError):
+        a = e.args
+        return "c" if a and isinstance(a[0], str) and a[0].startswith("Cancelled via cancel scope ") else "n"
+    return exc1(e)
+
+
+def owncode(e: BaseException | None) -> str:
+    """classification by the exception's own message only: what an operation raised, as
+    predicted by the model (which does not model exception chaining)"""
+    if e is None:
+        return "-"
+    if isinstance(e, BaseExceptionGroup):
+        return "g:" + ",".join(own1(x) for x in leaves(e))
+    return own1(e)
 
 
 class KRun:
@@ -74,10 +93,14 @@ class KRun:
         self.task_obj: dict[int, asyncio.Task] = {}
         self.scope_label: dict[int, int] = {}  # id(scope) -> L
         self.keep: list[Any] = []
+        self.scope_objs: dict[int, Any] = {}  # L -> scope object (user-visible scopes only)
         self.scope_by_key: dict[str, tuple[int, CancelScope]] = {}
         self.group_by_key: dict[str, tuple[int, Any]] = {}
         self.task_by_name: dict[str, tuple[int, Any]] = {}  # name -> (T, TaskHandle)
-        self.futs: list[asyncio.Future] = []
+        self.handles: dict[int, Any] = {}  # T -> TaskHandle
+        self.events: list[Any] = []
+        self.ev_waiters: list[list[int]] = []
+        self.nF = 0
         self.nT = 1
         self.nL = 0
         self.nG = 0
@@ -103,7 +126,10 @@ class KRun:
             self.open[T] = None
 
     def hist(self, *a: Any) -> None:
-        self.history.append((self.now(), self.loop.cycle if self.loop else 0) + a)
+        """oracle-level history entry: (now, cycle, flags, kind, ...) where flags is a snapshot of
+        the public cancel_called / shield properties of every scope created by the program"""
+        flags = {L: (sc.cancel_called, sc.shield) for L, sc in self.scope_objs.items()}
+        self.history.append((self.now(), self.loop.cycle if self.loop else 0, flags) + a)
 
     def now(self) -> int:
         return int(round(self.loop.time())) if self.loop else 0
@@ -112,6 +138,7 @@ class KRun:
         L = self.nL
         self.nL += 1
         self.scope_label[id(sc)] = L
+        self.scope_objs[L] = sc
         self.keep.append(sc)
         return L
 
@@ -153,14 +180,18 @@ class KRun:
 
     # ------------------------------------------------------------------ helpers
     async def op(self, me: int, req: str, kind: str, aw: Any) -> Any:
+        label = req.split()[1]
+        self.hist("block", me, label)
         self.open[me] = self.emit(req, None)
         try:
             r = await aw
         except BaseException as e:
-            self.close(me, f"{kind} {evcode(e)}")
+            self.close(me, f"{kind} {owncode(e)}")
+            self.hist("op-end", me, label, owncode(e))
             self.q_cancelling(me)
             raise
         self.close(me, f"{kind} -")
+        self.hist("op-end", me, label, "-")
         self.q_cancelling(me)
         return r
 
@@ -175,6 +206,16 @@ class KRun:
             self.emit(f"q scope {L}",
                       f"cc={int(sc.cancel_called)} caught={int(sc.cancelled_caught)} shield={int(sc.shield)}")
 
+    def handle_snapshot(self) -> dict[int, tuple]:
+        out = {}
+        for T, h in self.handles.items():
+            st = h.status.name
+            exc = None
+            if st in ("FAILED", "CANCELLED"):
+                exc = evcode(h._exception)
+            out[T] = (st, exc)
+        return out
+
     def abs_deadline(self, d: Any) -> tuple[float, str]:
         if d is None:
             return math.inf, "-"
@@ -188,30 +229,29 @@ class KRun:
 
     async def stmt(self, me: int, s: list) -> None:  # noqa: C901
         k = s[0]
+        self.hist("stmt", me, k)
         if k == "yield":
-            self.hist("block", me, "yield")
             await self.op(me, f"{me} yield", "resumed", asyncio.sleep(0))
         elif k == "sleep":
-            self.hist("block", me, "sleep", s[1])
-            try:
-                await self.op(me, f"{me} sleep {s[1]}", "done", anyio.sleep(s[1]))
-            finally:
-                self.hist("unblock", me, "sleep")
+            await self.op(me, f"{me} sleep {s[1]}", "done", anyio.sleep(s[1]))
         elif k == "await":
-            f = self.futs[s[1]]
-            if f.done() or not any(t._fut_waiter is f for t in self.task_obj.values()):  # type: ignore[attr-defined]
-                self.hist("block", me, "await", s[1])
-                try:
-                    await self.op(me, f"{me} await {s[1]}", "resumed", _await(f))
-                finally:
-                    self.hist("unblock", me, "await")
+            # anyio.Event.wait(): a set event is a plain checkpoint, otherwise a fresh future per waiter
+            ev = self.events[s[1]]
+            if ev.is_set():
+                await self.op(me, f"{me} yield", "resumed", ev.wait())
+            else:
+                F = self.nF
+                self.nF += 1
+                self.emit(f"{me} mkfut {F}", "ok")
+                self.ev_waiters[s[1]].append(F)
+                await self.op(me, f"{me} await {F}", "resumed", ev.wait())
         elif k == "set":
-            f = self.futs[s[1]]
-            self.emit(f"{me} setfut {s[1]}", "ok")
-            if not f.done():
-                f.set_result(None)
+            ev = self.events[s[1]]
+            if not ev.is_set():
+                for F in self.ev_waiters[s[1]]:
+                    self.emit(f"{me} setfut {F}", "ok")
+                ev.set()
         elif k == "chkif":
-            self.hist("block", me, "chkif")
             await self.op(me, f"{me} chkif", "done", anyio.lowlevel.checkpoint_if_cancelled())
         elif k == "shchk":
             await self.op(me, f"{me} shchk", "done", anyio.lowlevel.cancel_shielded_checkpoint())
@@ -259,10 +299,20 @@ class KRun:
                 await self.body(me, s[1])
             except Exception:
                 pass
+        elif k == "catchall":
+            try:
+                await self.body(me, s[1])
+            except BaseException:
+                pass
         elif k == "finally":
             try:
                 await self.body(me, s[1])
-            finally:
+            except GeneratorExit:  # abandoned coroutine being closed after the run: no cleanup
+                raise
+            except BaseException:
+                await self.body(me, s[2])
+                raise
+            else:
                 await self.body(me, s[2])
         elif k == "ncancel":
             ent = self.task_by_name.get(s[1])
@@ -274,7 +324,9 @@ class KRun:
                     t.cancel()
         elif k == "uncancel":
             self.emit(f"{me} uncancel", "ok")
+            before = self.task_obj[me].cancelling()
             self.task_obj[me].uncancel()
+            self.hist("uncancel", me, before)
         elif k == "hcancel":
             ent = self.task_by_name.get(s[1])
             if ent and ent[1] is not None:
@@ -284,11 +336,7 @@ class KRun:
         elif k == "hwait":
             ent = self.task_by_name.get(s[1])
             if ent and ent[1] is not None and ent[0] != me:
-                self.hist("block", me, "hwait", ent[0])
-                try:
-                    await self.op(me, f"{me} hwait {ent[0]}", "resumed", ent[1].wait())
-                finally:
-                    self.hist("unblock", me, "hwait")
+                await self.op(me, f"{me} hwait {ent[0]}", "resumed", ent[1].wait())
         elif k == "started":
             ts = self.status.get(me)
             if ts is not None:
@@ -351,6 +399,7 @@ class KRun:
         self.group_by_key[opts["k"]] = (G, tg)
         self.scope_by_key["g:" + opts["k"]] = (L, tg.cancel_scope)
         self.emit(f"{me} mkgroup {G} {L}", "ok")
+        self.hist("mkscope", L, me, False, None, "g:" + opts["k"])
         self.emit(f"{me} genter {G}", "ok")
         await tg.__aenter__()
         self.hist("genter", G, me, L)
@@ -364,13 +413,13 @@ class KRun:
         try:
             swallowed = await tg.__aexit__(type(exc) if exc else None, exc, exc.__traceback__ if exc else None)
         except BaseException as e2:
-            self.close(me, "done " + evcode(e2))
-            self.hist("aexit-end", G, me, evcode(e2))
+            self.close(me, "done " + owncode(e2))
+            self.hist("aexit-end", G, me, owncode(e2), self.handle_snapshot())
             self.q_scope(L, tg.cancel_scope)
             self.q_cancelling(me)
             raise
         self.close(me, "done -")
-        self.hist("aexit-end", G, me, "-")
+        self.hist("aexit-end", G, me, "-", self.handle_snapshot())
         self.q_scope(L, tg.cancel_scope)
         self.q_cancelling(me)
         if exc is not None and not swallowed:
@@ -396,6 +445,8 @@ class KRun:
             return
         self.lines[i][1] = "ok"
         self.scope_label[id(handle._cancel_scope)] = L
+        self.scope_objs[L] = handle._cancel_scope
+        self.handles[T] = handle
         self.keep.append(handle)
         self.task_by_name[name] = (T, handle)
         self.scope_by_key["h:" + name] = (L, handle._cancel_scope)
@@ -422,18 +473,21 @@ class KRun:
             handle = await tg.start(fn, return_handle=True)
         except BaseException as e:
             if self.lines[i][1] == "?":  # refused synchronously
-                self.lines[i][1] = "rterr" if isinstance(e, RuntimeError) else "done " + evcode(e)
+                self.lines[i][1] = "rterr" if isinstance(e, RuntimeError) else "done " + owncode(e)
                 self.open[me] = None
                 self.nT -= 1
                 self.nL -= 1
+                self.hist("start-refused", G, T, me)
             else:
-                self.close(me, "done " + evcode(e))
-            self.hist("start-end", G, T, me, evcode(e))
+                self.close(me, "done " + owncode(e))
+                self.hist("start-end", G, T, me, owncode(e))
             self.q_cancelling(me)
             raise
         self.close(me, "done -")
         self.hist("start-end", G, T, me, "-")
         self.task_by_name[name] = (T, handle)
+        self.handles[T] = handle
+        self.scope_by_key["h:" + name] = (self.scope_label[id(handle._cancel_scope)], handle._cancel_scope)
         self.keep.append(handle)
         self.q_cancelling(me)
 
@@ -453,7 +507,7 @@ class KRun:
                 w = self.lines[i][0].split()
                 if len(w) == 5 and w[1] == "start" and int(w[3]) == T:
                     self.scope_label[id(hs)] = int(w[4])
-                    self.scope_by_key["h:" + name] = (int(w[4]), hs)
+                    self.scope_objs[int(w[4])] = hs
                     break
             self.keep.append(hs)
         if self.unknown_run is not None:
@@ -480,8 +534,8 @@ class KRun:
         self.task_obj[0] = task
         self.root_started = True
         for i in range(self.p.get("nfuts", 0)):
-            self.futs.append(self.loop.create_future())
-            self.emit(f"0 mkfut {i}", "ok")
+            self.events.append(anyio.Event())
+            self.ev_waiters.append([])
         try:
             await self.body(0, self.p["main"])
         except BaseException as e:
